@@ -15,7 +15,16 @@
 (*   Rollback = FALSE : code before the "fix:" commit (batches write       *)
 (*                      through; must FAIL - regression configuration)     *)
 (*   NsProviderOrder = "legacy": CIM_Namespace CreateInstance adds the     *)
-(*                      namespace before the key check (must FAIL)         *)
+(*                      namespace before the key check and never removes   *)
+(*                      it again (must FAIL)                               *)
+(*   NsProviderOrder = "keys-first": the key check is moved in front of    *)
+(*                      the write instead of the cleanup; the duplicate    *)
+(*                      check of the default provider still comes after    *)
+(*                      the namespace was added (must FAIL in the state    *)
+(*                      "instance exists, namespace does not")            *)
+(*   RollbackScope = "target-namespace": the batch snapshot covers only    *)
+(*                      the namespace the call was made for (must FAIL for *)
+(*                      productions that write outside it)                 *)
 (***************************************************************************)
 EXTENDS Naturals, Sequences, FiniteSets, TLC
 
@@ -28,16 +37,29 @@ CONSTANTS Rollback, NsProviderOrder, MaxBatch,
                              \* (the code: except Exception); "mof": only MOF /
                              \* CIM / Value / Type errors do - an I/O error of
                              \* an include does not
-          SchemaListRollback \* TRUE: one snapshot around the loop over the
+          SchemaListRollback,\* TRUE: one snapshot around the loop over the
                              \* schema pragma files; FALSE: only each file's
                              \* own compile is rolled back
+          RollbackScope      \* "repository": the snapshot of a batch is the
+                             \* complete repository (the code: deepcopy of
+                             \* conn.cimrepository); "target-namespace": only
+                             \* the namespace given to the call
 
 Ck(r) == [t |-> "check", r |-> r, i |-> 0]
 Wr(i) == [t |-> "write", r |-> "", i |-> i]
 
-(* items are small integers; writing item i toggles "version" of i in the  *)
-(* repository map (so every write is observable)                           *)
-Items == 1..4
+(* items are small integers; writing item i toggles the "version" bit of   *)
+(* i in the repository map; no pipeline writes an item twice (ASSUME       *)
+(* below), so every write is observable                                    *)
+(* 1..4 live in the target namespace of the call (4 doubles as "a          *)
+(* namespace" for add/remove_namespace and the namespace provider);        *)
+(* 5 = an object in ANOTHER existing namespace, 6 = another namespace      *)
+(* itself - both can be written by a MOF batch although the call names     *)
+(* one target namespace: `#pragma namespace`, the shadow copy of a         *)
+(* cross-namespace association instance, an `instance of CIM_Namespace`    *)
+(* handled by the namespace provider                                       *)
+TargetItems == 1..4
+Items == 1..6
 Mod(a, b) == a - (a \div b) * b
 
 (* batch of n productions: check_k ; write_k interleaved (write-through)   *)
@@ -52,6 +74,16 @@ BatchIoSteps(n) ==
   [j \in 1..(2 * n) |->
      IF Mod(j, 2) = 1 THEN Ck("io" \o ToString((j + 1) \div 2))
      ELSE Wr(Mod((j \div 2) - 1, 4) + 1)]
+
+(* a batch whose productions write OUTSIDE the target namespace before    *)
+(* (and after) the invalid one: production 1 writes an object into another *)
+(* existing namespace, production 2 creates a namespace, the others write  *)
+(* into the target namespace                                               *)
+BatchNsSteps(n) ==
+  [j \in 1..(2 * n) |->
+     IF Mod(j, 2) = 1 THEN Ck("prod" \o ToString((j + 1) \div 2))
+     ELSE IF j = 2 THEN Wr(5) ELSE IF j = 4 THEN Wr(6)
+     ELSE Wr(Mod((j \div 2) - 3, 4) + 1)]
 
 (* compile_schema_classes over two schema pragma files: per file           *)
 (* build_schema_mof (class listed in the file?) and a compile              *)
@@ -87,29 +119,52 @@ Table ==
                                Ck("notfound2"), Wr(3), Wr(2)>>,
    add_namespace |-> <<Ck("exists"), Wr(4)>>,
    remove_namespace |-> <<Ck("notfound"), Ck("notempty"), Wr(4)>>,
+   \* CreateInstance of CIM_Namespace: the dispatcher's checks (namespace,
+   \* creation class, properties), then CIMNamespaceProvider.CreateInstance:
+   \* its own checks (Interop namespace, Name/CreationClassName present
+   \* and matching, namespace already represented by an instance, second
+   \* Interop namespace), add the namespace, then the default provider's
+   \* CreateInstance (path from the keys, duplicate check) and its write.
+   \* The code ("fixed") removes the added namespace again when the
+   \* default provider raises (Undo below).  The duplicate check can only
+   \* fire in the state "CIM_Namespace instance exists, its namespace does
+   \* not" (otherwise "nsinst" fires first).
    CreateNamespaceInstance |->
-       IF NsProviderOrder = "legacy"
-       THEN <<Ck("ns"), Ck("class"), Ck("props"), Ck("nameprop"), Wr(4),
-              Ck("key"), Ck("exists"), Wr(2)>>
-       ELSE <<Ck("ns"), Ck("class"), Ck("props"), Ck("nameprop"),
-              Ck("key"), Ck("exists"), Wr(4), Wr(2)>>]
+       IF NsProviderOrder = "keys-first"
+       THEN <<Ck("ns"), Ck("class"), Ck("props"), Ck("interop"),
+              Ck("nameprop"), Ck("ccn"), Ck("key"), Ck("nsinst"),
+              Ck("interop2"), Wr(4), Ck("exists"), Wr(2)>>
+       ELSE <<Ck("ns"), Ck("class"), Ck("props"), Ck("interop"),
+              Ck("nameprop"), Ck("ccn"), Ck("nsinst"), Ck("interop2"),
+              Wr(4), Ck("key"), Ck("exists"), Wr(2)>>]
 
 OpNames == DOMAIN Table
 Steps(op) == IF op \in OpNames THEN Table[op]
              ELSE IF op = "batchio" THEN BatchIoSteps(MaxBatch)
              ELSE IF op = "schemalist" THEN SchemaSteps
+             ELSE IF op = "batchns" THEN BatchNsSteps(MaxBatch)
              ELSE BatchSteps(MaxBatch)
-AllOps == OpNames \cup {"batch", "batchio", "schemalist"}
+AllOps == OpNames \cup {"batch", "batchio", "schemalist", "batchns"}
 
-(* does the failing check x of operation op restore the snapshot? *)
-Restores(op, x, pc) ==
-  CASE op = "batch" -> Rollback
-    [] op = "batchio" -> Rollback /\ RollbackKinds = "all"
+(* which items does operation op put back to their snapshot value when   *)
+(* its check x at position pc fails?                                       *)
+Scope == IF RollbackScope = "repository" THEN Items ELSE TargetItems
+Undo(op, x, pc) ==
+  CASE op \in {"batch", "batchns"} -> IF Rollback THEN Scope ELSE {}
+    [] op = "batchio" -> IF Rollback /\ RollbackKinds = "all" THEN Scope
+                         ELSE {}
     [] op = "schemalist" ->
          \* each compile_mof_string restores what IT wrote (nothing yet at a
          \* check); only the outer snapshot undoes the earlier files
-         Rollback /\ (SchemaListRollback \/ pc <= 3)
-    [] OTHER -> FALSE
+         IF Rollback /\ (SchemaListRollback \/ pc <= 3) THEN Scope ELSE {}
+    [] op = "CreateNamespaceInstance" ->
+         \* except Exception: if namespace_added: remove_namespace(...)
+         IF NsProviderOrder = "fixed" THEN {4} ELSE {}
+    [] OTHER -> {}
+WriteItems(op) == LET st == Steps(op) IN
+                  [j \in {x \in DOMAIN st : st[x].t = "write"} |-> st[j].i]
+ASSUME \A op \in AllOps : \A a, b \in DOMAIN WriteItems(op) :
+          a # b => WriteItems(op)[a] # WriteItems(op)[b]
 Reasons(op) == {Steps(op)[j].r : j \in {x \in DOMAIN Steps(op) :
                                          Steps(op)[x].t = "check"}}
 
@@ -139,10 +194,11 @@ Step == /\ ~call.done
                 THEN IF x.r \in call.scen
                      THEN \* the call raises here
                           /\ call' = [call EXCEPT !.raised = TRUE, !.done = TRUE]
-                          /\ repo' = IF Restores(call.op, x, call.pc)
-                                     THEN call.snap ELSE repo
+                          /\ repo' = [i \in Items |->
+                                        IF i \in Undo(call.op, x, call.pc)
+                                        THEN call.snap[i] ELSE repo[i]]
                      ELSE call' = [call EXCEPT !.pc = @ + 1] /\ UNCHANGED repo
-                ELSE /\ repo' = [repo EXCEPT ![x.i] = Mod(@ + 1, 3)]
+                ELSE /\ repo' = [repo EXCEPT ![x.i] = 1 - @]
                      /\ call' = [call EXCEPT !.pc = @ + 1]
 
 Next == Start \/ Step
